@@ -8,7 +8,7 @@ import props
 TEXT = {
  "C01": ("proof", "Lean theorems: the parser's IR refines canonical Brainfuck for every program, input and width; the optimizer has an EXACT Lean model (Opt.lean + the clobbered-set recomputation of OptFix.lean, tied on every run by structural equality of the optimized IR incl. the recorded hash iteration orders) and is proved behaviour preserving at EVERY optimization level for every oracle of iteration orders (optimizeF_preserves_all_levels'), never panicking and total; composed end to end: all_levels_all_backends relates canonical, in-place, IR interpreter, bytecode machine and JIT at every level. The proofs found and led to the repair of four miscompiles (F10 by the thorough tier; F11, F12, F13 by the proof itself)", "5/C01"),
  "C02": ("proof", "Lean theorems on the exact Lean port of bc::CodeGen::translate: all four phases (value-numbering emission, dead-store elimination, temporary allocation, late passes) preserve behaviour; translate is total and its output passes the contract check; composed end to end at level 0: canonical = bytecode machine for every source (both dispatch profiles); for optimizer output the chain starts at the IR under the per-run-tested hypothesis OnceOk; port tied to the Rust by EXACT bytecode equality, threaded interpreter = Bc.run on real bytecode in debug and release builds — at every optimization level (Props/ChainFinal)", "5/C02"),
- "C03": ("proof", "Lean theorems: whole-program simulation between the bytecode machine and a program-level x86 machine running the exact Lean port of the code generator (branches, limit check, checked/unchecked mov, runtime calls with register saving, prologue/epilogue, stack temporaries, 64-bit immediates), exact relocation, selector totality on generator output, composed with the C02 chain to source level at level 0 under explicit range hypotheses; machine code = encoding of the modelled instructions EXACTLY; x86 instruction semantics and the program-level machine validated against this CPU on every run — at every optimization level (Props/ChainFinal)", "5/C03"),
+ "C03": ("proof", "Lean theorems: whole-program simulation between the bytecode machine and a program-level x86 machine running the exact Lean port of the code generator (branches, limit check, checked/unchecked mov, runtime calls with register saving, prologue/epilogue, stack temporaries, 64-bit immediates), exact relocation, selector totality on generator output, composed with the C02 chain to source level at every optimization level under explicit range hypotheses, of which every displacement hypothesis (access window, mov shifts) is discharged from bytes*length(source) < 2^31 (Props/JitRangeLen); machine code = encoding of the modelled instructions EXACTLY; x86 instruction semantics and the program-level machine validated against this CPU on every run — at every optimization level (Props/ChainFinal)", "5/C03"),
  "C04": ("proof", "Lean theorem inplace_* (Props/C04): the in-place interpreter model and the canonical semantics reach equal states for every balanced program, environment and width, termination reflected, prefix property, limited mode; model tied to src/exec/inplace.rs by differential correspondence on every run", "5/C04"),
  "C05": ("proof", "Lean theorems: divergence certificates are sound; canonical divergence/termination and the output before divergence are preserved by the in-place interpreter, the IR interpreter, the bytecode machine and (limited mode) the JIT at level 0 (corollaries of the composed refinement); optimized programs: two-phase check — Lean certifies candidates as halting/divergent, every back end x level is held to the verdict; Props/ChainFinal extends this to optimized code at every level", "5/C05"),
  "C06": ("proof", "Lean theorems (Props/C06): on the layout model of the bounds-checked executors every tape access stays inside the allocation for every checked program and every move, growth preserves contents (with C09); the layout model equals the real (size, offset); all back ends run under a guard-page allocator (left and right)", "5/C06"),
